@@ -8,7 +8,7 @@
     Components enter through the interface {apply; snapshot; load_record; observe(=ceq)} with
     their round-trip law as hypothesis (MCP, direct cache, naming, ... are validated by the
     `restart` harness only; concrete Config / Sequence models: another package). *)
-From RN Require Import SM.Replay SM.ReplayProofs RaftLog.SnapFileProofs SM.SnapshotInst.
+From RN Require Import SM.Replay SM.ReplayProofs RaftLog.SnapFileProofs Codec.BufReaderProofs SM.SnapshotInst.
 
 (** Every tree name that a component's source writes is dispatched back to that component by
     the generated load_snapshot table (finite check over the Gen tables); the generated
@@ -25,18 +25,17 @@ Qed.
 (** the exceptions are real (a sequence named SEQ_CONFIG would be loaded into Config; a table
     with another name is dropped by load_snapshot) — both are outside the served state *)
 Theorem C01_tree_name_exceptions :
-  route load_arms "T_SEQUENCE" "SEQ_CONFIG" = Some (KConfig, LInnerSetLastId) /\
-  (forall key, route load_arms "T_OTHER" key = None).
+  route load_arms (bytes_of_lit "T_SEQUENCE") (bytes_of_lit "SEQ_CONFIG") = Some (KConfig, LInnerSetLastId) /\
+  (forall key, route load_arms (bytes_of_lit "T_OTHER") key = None).
 Proof. exact (conj seq_config_key_misrouted other_table_dropped). Qed.
 
 (** Snapshot file round trip through the framing layer: what SnapshotWriter wrote is what
     SnapshotReader returns, whatever an earlier file of the same name contained (repaired
-    writer).  [framing] is the C20 theorem chunking_invariance in the instance used here. *)
+    writer).  The framing layer is the C20 theorem chunking_invariance (no premise left);
+    [rec_ok] = non-empty body of bytes, shorter than 2^64. *)
 Theorem C01_snapshot_file_roundtrip :
-  forall (framing : forall bodies : list (list N), Forall nonempty bodies ->
-            feed_drain (blocks1024 (concat (map frame bodies))) mbr_new = Ok (map frame bodies))
-         (leftover hdr : list N) (recs : list (list N)),
-    nonempty hdr -> Forall nonempty recs -> (length (frame hdr) <= 1024)%nat ->
+  forall (leftover hdr : list N) (recs : list (list N)),
+    rec_ok hdr -> Forall rec_ok recs -> (length (frame hdr) <= 1024)%nat ->
     snap_read (write_truncate leftover (snap_image hdr recs)) = Ok (frame hdr, map frame recs).
 Proof. exact snap_roundtrip_over_leftover. Qed.
 
@@ -50,16 +49,18 @@ Theorem C01_restart_reproduces :
          (cload : comp -> load_msg -> S -> record -> S) (cinit : comp -> S)
          (ceq : comp -> S -> S -> Prop),
     (forall c s, ceq c s s) ->
+    (forall c s1 s2 s3, ceq c s1 s2 -> ceq c s2 s3 -> ceq c s1 s3) ->
     (forall c s1 s2 m, ceq c s1 s2 -> ceq c (capply c s1 m) (capply c s2 m)) ->
+    (* invariant of reachable component states / messages in scope *)
+    forall (cinv : comp -> S -> Prop) (mok : comp -> M -> Prop),
+    (forall c, cinv c (cinit c)) ->
+    (forall c s m, cinv c s -> mok c m -> cinv c (capply c s m)) ->
     (* component laws *)
-    (forall c s r, In r (csnap c s) -> routed_to c (rtree r) (rkey r)) ->
-    (forall c s, ceq c (fold_left (cload_routed S cload c) (csnap c s) (cinit c)) s) ->
-    forall (enc : record -> list N) (dec_frame : list N -> option record),
-    (* C20 framing *)
-    (forall bodies : list (list N), Forall nonempty bodies ->
-       feed_drain (blocks1024 (concat (map frame bodies))) mbr_new = Ok (map frame bodies)) ->
-    forall (hist : list (entry M)) (k : nat) (leftover hdr : list N),
-      (k <= length hist)%nat ->
+    (forall c s r, cinv c s -> In r (csnap c s) -> routed_to c (rtree r) (rkey r)) ->
+    (forall c s, cinv c s -> ceq c (fold_left (cload_routed S cload c) (csnap c s) (cinit c)) s) ->
+    forall (enc : record -> list N) (dec_frame : list N -> option record)
+           (hist : list (entry M)) (k : nat) (leftover hdr : list N),
+      (k <= length hist)%nat -> Forall (entry_ok M mok) hist ->
       codec_ok enc dec_frame hdr
                (build_snapshot S csnap (run S M capply (firstn k hist) (init_node S cinit))) ->
       exists nd,
@@ -73,10 +74,15 @@ Theorem C01_restart_state :
          (capply : comp -> S -> M -> S) (csnap : comp -> S -> list record)
          (cload : comp -> load_msg -> S -> record -> S) (cinit : comp -> S)
          (ceq : comp -> S -> S -> Prop),
+    (forall c s, ceq c s s) ->
+    (forall c s1 s2 s3, ceq c s1 s2 -> ceq c s2 s3 -> ceq c s1 s3) ->
     (forall c s1 s2 m, ceq c s1 s2 -> ceq c (capply c s1 m) (capply c s2 m)) ->
-    (forall c s r, In r (csnap c s) -> routed_to c (rtree r) (rkey r)) ->
-    (forall c s, ceq c (fold_left (cload_routed S cload c) (csnap c s) (cinit c)) s) ->
-    forall (hist : list (entry M)) (k : nat), (k <= length hist)%nat ->
+    forall (cinv : comp -> S -> Prop) (mok : comp -> M -> Prop),
+    (forall c, cinv c (cinit c)) ->
+    (forall c s m, cinv c s -> mok c m -> cinv c (capply c s m)) ->
+    (forall c s r, cinv c s -> In r (csnap c s) -> routed_to c (rtree r) (rkey r)) ->
+    (forall c s, cinv c s -> ceq c (fold_left (cload_routed S cload c) (csnap c s) (cinit c)) s) ->
+    forall (hist : list (entry M)) (k : nat), (k <= length hist)%nat -> Forall (entry_ok M mok) hist ->
     forall c, ceq c (start_up S M capply cload cinit
                               (Some (k, build_snapshot S csnap (run S M capply (firstn k hist) (init_node S cinit))))
                               hist (length hist) c)
@@ -100,19 +106,19 @@ Proof. exact interrupted_compaction_harmless. Qed.
     over the leftover a, b, c: after the restart the deleted c is served again. *)
 Theorem C01_interrupted_compaction_harmless_refuted :
   exists (hist : list (entry kvmsg)) (k : nat) (leftover hdr : list N),
-    res_map (fun nd => lookupk "c" (nd KTable))
+    res_map (fun nd => lookupk (kb "c") (nd KTable))
             (restart kvstate kvmsg kapply ksnap kload kinit enc_rec dec_frame1 write_in_place leftover hdr hist k)
-    <> res_map (fun nd => lookupk "c" (nd KTable))
+    <> res_map (fun nd => lookupk (kb "c") (nd KTable))
                (restart kvstate kvmsg kapply ksnap kload kinit enc_rec dec_frame1 write_in_place [] hdr hist k).
 Proof. exact interrupted_compaction_harmless_refuted. Qed.
 
 (** the regression pair on the concrete key-value node: old writer resurrects c, repaired
     writer serves exactly the pre-stop state *)
 Theorem C01_regression_pair :
-  (served (kv_restart write_in_place) "c" = Ok (Some [3]%N)) /\
-  (served (kv_restart write_truncate) "a" = Ok (Some [1]%N) /\
-   served (kv_restart write_truncate) "b" = Ok (Some [2]%N) /\
-   served (kv_restart write_truncate) "c" = Ok None) /\
+  (served (kv_restart write_in_place) (kb "c") = Ok (Some [3]%N)) /\
+  (served (kv_restart write_truncate) (kb "a") = Ok (Some [1]%N) /\
+   served (kv_restart write_truncate) (kb "b") = Ok (Some [2]%N) /\
+   served (kv_restart write_truncate) (kb "c") = Ok None) /\
   snap_read (write_in_place (snap_image w_hdr [w_a; w_b; w_c]) (snap_image w_hdr [w_a; w_b]))
   = Ok (frame w_hdr, [frame w_a; frame w_b; frame w_c]).
 Proof.
@@ -153,9 +159,13 @@ Theorem C01_restart_racy_idempotent :
     (forall c s, ceq c s s) ->
     (forall c s1 s2 s3, ceq c s1 s2 -> ceq c s2 s3 -> ceq c s1 s3) ->
     (forall c s1 s2 m, ceq c s1 s2 -> ceq c (capply c s1 m) (capply c s2 m)) ->
-    (forall c s r, In r (csnap c s) -> routed_to c (rtree r) (rkey r)) ->
-    (forall c s, ceq c (fold_left (cload_routed S cload c) (csnap c s) (cinit c)) s) ->
+    forall (cinv : comp -> S -> Prop) (mok : comp -> M -> Prop),
+    (forall c, cinv c (cinit c)) ->
+    (forall c s m, cinv c s -> mok c m -> cinv c (capply c s m)) ->
+    (forall c s r, cinv c s -> In r (csnap c s) -> routed_to c (rtree r) (rkey r)) ->
+    (forall c s, cinv c s -> ceq c (fold_left (cload_routed S cload c) (csnap c s) (cinit c)) s) ->
     forall (hist : list (entry M)) (k : nat) (j : comp -> nat) (c : comp),
+      Forall (entry_ok M mok) hist ->
       replay_idempotent S M capply ceq c ->
       ceq c (restart_racy S M capply csnap cload cinit hist k j c)
             (run S M capply hist (init_node S cinit) c).
